@@ -333,12 +333,12 @@ func init() {
 	planTable["C15"] = lsmPlan("Normal- and managed-mode histories with value-log values (one entry per value-log file, so files rotate constantly), deletes, flushes, compactions and RunValueLogGC of the oldest sealed file as explicit transitions (discard statistics forced: any sealed file may be picked), with snapshot transactions, a Get item and an iterator item held in open transactions across the GC: after every transition every read (fresh, snapshot, held items) must be unchanged and no deleted key may reappear. Concurrent part: GC rewrite phases (scan, write-back, file deletion) interleaved with a deleter/compactor, an iterator opened mid-GC, and a snapshot reader whose key is overwritten, flushed and compacted to the last level during the rewrite, under the controlled scheduler.",
 		stateRule,
 		[]Stage{bfs("lsm", 4, 60, prm("oracle", "c12", "mode", "normal", "keys", 2, "big", true, "gc", true, "vlog_max_entries", 1, "l0_tables", 1, "ops", "Ba Bb Da F C0 G Ka Ia Z O X"), seq("Ba Bb F"), seq("Ba Bb Ba F C0")),
-			sched("c15gc", 2, 16, 25, prm("variant", "iter")), sched("c15gc", 2, 16, 30, prm("variant", "delete")), sched("c15gc", 2, 16, 30, prm("variant", "snapshot")),
+			sched("c15gc", 2, 16, 25, prm("variant", "iter")), sched("c15gc", 2, 16, 30, prm("variant", "delete")), sched("c15gc", 2, 16, 30, prm("variant", "snapshot")), sched("c15gc", 2, 16, 30, prm("variant", "delete-deep")),
 			// a GC rewrite puts key@version into a second L0 table; an L0->L0 compaction that leaves the recent table out must keep the newer copy in front
 			bfs("lsm", 4, 40, c15l0, seq(c15l0seed))},
 		[]Stage{bfs("lsm", 6, 900, prm("oracle", "c12", "mode", "normal", "keys", 2, "big", true, "gc", true, "vlog_max_entries", 1, "l0_tables", 1, "ops", "Ba Bb Sa Da F C0 C1 G Ka Ia Z O X"), seq("Ba Bb F"), seq("Ba Bb Ba F C0")),
 			bfs("lsm", 5, 600, prm("oracle", "c12", "mode", "managed", "keys", 2, "big", true, "gc", true, "vlog_max_entries", 2, "l0_tables", 1, "ops", "Ba Bb Da F C0 T G Ka Ia Z"), seq("Ba Bb Ba F")),
-			sched("c15gc", 3, 16, 300, prm("variant", "iter")), sched("c15gc", 3, 16, 600, prm("variant", "delete")), sched("c15gc", 3, 16, 600, prm("variant", "snapshot"))})
+			sched("c15gc", 3, 16, 300, prm("variant", "iter")), sched("c15gc", 3, 16, 600, prm("variant", "delete")), sched("c15gc", 3, 16, 600, prm("variant", "snapshot")), sched("c15gc", 3, 16, 600, prm("variant", "delete-deep"))})
 
 	planTable["C07"] = lsmPlan("Every state of the managed- and normal-mode operation-sequence space (writes, deletes, value-log values, flushes, compactions, discard-timestamp moves) is closed and re-opened read-write and, separately, read-only: the dump of ALL retained versions (including internal keys) must be identical before Close and after Open, reads at every timestamp >= the discard timestamp equal the model afterwards, and a read-only open + full read + close leaves every file byte-identical (name, size, content hash). Variants with CompactL0OnClose and different compaction settings compare visible reads; a re-open with another compression setting (tables keep the one recorded in the MANIFEST) and re-opens after a value-log GC left one key and version in two L0 tables are further transitions. Read-only opens of crash images (every persistence step of short histories, including empty / truncated log files and tables not yet in the MANIFEST): whether the open succeeds or is refused, no file may change (logical content and size). Re-opens with other settings as transitions of the search: a much larger BaseLevelSize (the base level is recomputed), bloom filters switched on for tables built without them and off again.",
 		stateRule,
@@ -441,6 +441,8 @@ func init() {
 			n["ops"] = ops
 			return n
 		}
+		enc29 := withOps(base, "")
+		enc29["encrypt"] = true
 		shrink := withOps(base, "")
 		shrink["bulk"], shrink["value_threshold"] = true, 1024 // U<prefix>: 10 filler keys x 400 bytes inline, about 4 KiB per table
 		big := withOps(base, "")
@@ -453,6 +455,8 @@ func init() {
 				bfs("lsm", 3, 50, withOps(big, "Sp1a Sq Dp1a F C0 Yp1 Yp Yp1,q Yp1a,qq Yp1a,p1 V R"), seeds...),
 				// an older L0 table WITHOUT the prefix whose key is deleted/overwritten in the table the drop flushes
 				bfs("lsm", 4, 40, withOps(base, "Dq Sq Sp1a F Yp1 Yp1,p2 R"), seq("Sq F"), seq("Sq Sp2a F")),
+				// encrypted database (table indices go through the index cache, keyed by table id; DropAll restarts the ids)
+				bfs("lsm", 4, 30, withOps(enc29, "Sp1a Sq F C0 V Yp1")),
 				// a drop that empties the LAST level while the level above it still holds a key
 				bfs("lsm", 4, 30, withOps(shrink, "Yx Dq Sq F C0"), seq("Ux F C0 Sq F C0")),
 				sched("c29race", 2, 4, 40, prm("cases", 4)),
